@@ -117,6 +117,33 @@ class ModelRun(object):
                 self.flush_trace()
                 self.lines.append('T %d' % e.kind)
             return 'I %d' % k
+        if o == 'child':
+            # <module>NewChild(parent): a further instance created through the parent's newChild hook - for a module without a shared
+            # memory it is an instance like any other (own memory, table, globals, start function run once), resolved like the parent
+            _, k, parent = op
+            try:
+                imps = {}
+                fi = 0
+                for gi, (mod, name, kind, desc) in enumerate(self.m.imports):
+                    if kind == 'func':
+                        imps[(mod, name)] = self.host[fi]
+                        fi += 1
+                    else:
+                        imps[(mod, name)] = self.objs[(kind, self.bind[(parent, gi)])]
+                        self.bind[(k, gi)] = self.bind[(parent, gi)]
+                inst = interp.Instance(m, imps, tag=k, hazards=self.hz, events=self.ev, byteorder=self.byteorder)
+                self.insts[k] = inst
+                self.flush_trace()
+                self.lines.append('K %d' % k)
+            except interp.Trap as e:
+                self.flush_trace()
+                self.lines.append('T %d' % e.kind)
+            return 'K %d' % parent
+        if o == 'freechild':
+            _, k = op
+            self.insts.pop(k, None)
+            self.lines.append('f ok')
+            return 'f %d' % k
         if o == 'mayfail':
             # from here on a memory.grow beyond 1 GiB is executed: it may legitimately fail for lack of memory, so its expected
             # line lists both outcomes; the model continues as if it had failed (scripts using this touch nothing size-dependent)
